@@ -470,7 +470,20 @@ def run_history(case, pool, mode, viols, pass_name):
             # overlap, kinetic energy), so that anything stale afterwards is observable
             for tol_ in (None, 1e-1, 1e-3, 1e-6, 1e-10):
                 cm.call(overlap_integral, list(pool["basis"]), tol_screen=tol_)
+            geo0 = [(float(np.min(x.exps)), np.array(x.coord, dtype=float)) for x in pool["basis"]]
             s = apply_update(name, pool, o, frozen)
+            # screening tolerances placed between the documented decision thresholds exp(-mu R^2) of the OLD and the NEW
+            # parameters of every pair involving an updated shell: there a decision taken from stale parameters differs
+            geo1 = [(float(np.min(x.exps)), np.array(x.coord, dtype=float)) for x in pool["basis"]]
+            btols = []
+            for i_ in range(len(geo0)):
+                for j_ in range(i_):
+                    t0_ = geo0[i_][0] * geo0[j_][0] / (geo0[i_][0] + geo0[j_][0]) * float(np.sum((geo0[i_][1] - geo0[j_][1]) ** 2))
+                    t1_ = geo1[i_][0] * geo1[j_][0] / (geo1[i_][0] + geo1[j_][0]) * float(np.sum((geo1[i_][1] - geo1[j_][1]) ** 2))
+                    if abs(t0_ - t1_) > 0.05 * max(t0_, t1_) and 0.02 < 0.5 * (t0_ + t1_) < 25.0:
+                        btols.append(float(np.exp(-0.5 * (t0_ + t1_))))
+            btols = sorted(set(btols))[:4]
+            mi.STATE.count("C19:boundary-tolerances", len(btols))
             S = cm.call(overlap_integral, [s])
             evals += 1
             if isinstance(S, cm.Raised):
@@ -494,7 +507,8 @@ def run_history(case, pool, mode, viols, pass_name):
                            ("overlap_integral(tol_screen=1e-6)", lambda b: overlap_integral(b, tol_screen=1e-6)),
                            ("overlap_integral(tol_screen=1e-10)", lambda b: overlap_integral(b, tol_screen=1e-10)),
                            ("evaluate_deriv_basis", lambda b: _edb(b, np.array(pool["pts"]), np.array([1, 0, 1]))),
-                           ("point_charge_integral", lambda b: _pc(b, np.array(pool["pts"]), np.array(pool["chg"])))):
+                           ("point_charge_integral", lambda b: _pc(b, np.array(pool["pts"]), np.array(pool["chg"])))) + tuple(
+                               ("overlap_integral(tol_screen=%.3e, between the old and the new threshold of a pair)" % t_, (lambda b, t_=t_: overlap_integral(b, tol_screen=t_))) for t_ in btols):
                 a1, a2 = cm.call(fn, list(pool["basis"])), cm.call(fn, fresh)
                 evals += 1
                 if isinstance(a1, cm.Raised) or isinstance(a2, cm.Raised):
